@@ -23,6 +23,8 @@ def seeds_for(pid):
         if not os.path.exists(mp) or not os.path.exists(os.path.join(d, "patch.diff")):
             continue
         meta = json.load(open(mp))
+        if meta.get("not_detected_reason") and pid not in meta.get("detected_by_checks", []):
+            continue        # a seed the static rules do not decide (reason recorded in its meta.json and in DESIGN.md)
         if pid in meta.get("detected_by_checks", []) or meta.get("property") == pid:
             out.append((name, d, meta))
     return out
